@@ -335,6 +335,12 @@ class DispMon(Mon):
             nt = nt + (s.valid & s.ready)
         self.bad_fwd = Signal(name_override="bad_forwarding")
         self.comb += self.bad_fwd.eq(t | (nt > 1))
+        # no stall: with every slave ready an offered beat is taken in the same cycle - also when the selector points at no slave (the packet is dropped)
+        allrdy = 1
+        for s in ss:
+            allrdy = allrdy & s.ready
+        self.bad_stall = Signal(name_override="bad_master_stalled")
+        self.comb += self.bad_stall.eq(ma.valid & allrdy & ~ma.ready)
         pk = self.reg(2, "pk"); chg = self.reg(1, "sel_changed_midpacket"); psel = self.reg(len(dut.sel), "psel")
         self.sync += [If(hsk & ma.last & (pk != 3), pk.eq(pk + 1)), psel.eq(dut.sel), If(inpkt & (psel != dut.sel), chg.eq(1))]
         self.w = Signal(name_override="w_sel_changed_mid_packet")
@@ -345,7 +351,8 @@ class DispMon(Mon):
 def build_disp(n, one_hot, K):
     m = DispMon(n, one_hot)
     return H("packet_dispatcher_%d%s" % (n, "_onehot" if one_hot else ""), m, m.free, assume=[m.asm],
-             bad=dict(route_fixed_during_packet=m.bad_route, first_beat_follows_sel=m.bad_first, beats_forwarded_unchanged_to_one_slave=m.bad_fwd),
+             bad=dict(route_fixed_during_packet=m.bad_route, first_beat_follows_sel=m.bad_first, beats_forwarded_unchanged_to_one_slave=m.bad_fwd,
+                      beat_taken_when_all_slaves_ready=m.bad_stall),
              witness=dict(sel_changed_mid_packet=m.w), K=K, funcs=FUNCS, cfg=dict(slaves=n, one_hot=one_hot), show=m.showl, vcycles=30)
 
 
@@ -369,10 +376,11 @@ def jobs(tier):
         js.append(Job("packetfifo_d4_p2_buffered", build_pfifo, dict(depth=4, param_depth=2, buffered=True, K=K), cost=20))
     js.append(Job("packet_arbiter_2", build_arb, dict(n=2, K=K), cost=5))
     js.append(Job("packet_dispatcher_2", build_disp, dict(n=2, one_hot=False, K=K), cost=5))
+    js.append(Job("packet_dispatcher_3", build_disp, dict(n=3, one_hot=False, K=K), cost=5))
     if T:
         js.append(Job("packet_arbiter_3", build_arb, dict(n=3, K=K), cost=8))
         js.append(Job("packet_dispatcher_3_onehot", build_disp, dict(n=3, one_hot=True, K=K), cost=5))
-        js.append(Job("packet_dispatcher_3", build_disp, dict(n=3, one_hot=False, K=K), cost=5))
+        js.append(Job("packet_dispatcher_5", build_disp, dict(n=5, one_hot=False, K=K), cost=8))
     return js
 
 
